@@ -134,17 +134,16 @@ theorem INTEGER2umax_umax2INTEGER (v : Nat) (h : v < 2 ^ 64) : INTEGER2umax (uma
 /-- F3: a negative INTEGER is silently read as a large unsigned one (FIXME in the C source). -/
 theorem INTEGER2umax_negative_cex : twosVal [255] = -1 ∧ INTEGER2umax [255] = .ok 255 := by decide
 
-/-- **asn_ulong2INTEGER**, partial: correct below 2^63 (finding F2 above). -/
-theorem ulong2INTEGER_partial (v : Nat) (h : v < 2 ^ 63) :
+/-- **asn_ulong2INTEGER**: canonical octets for every `unsigned long` (finding F2 repaired: the value no longer
+    passes through `intmax_t`). -/
+theorem ulong2INTEGER_spec (v : Nat) (h : v < 2 ^ 64) :
     ulong2INTEGER v ≠ [] ∧ Bytes.wf (ulong2INTEGER v) ∧ MinimalTwos (ulong2INTEGER v) ∧
     twosVal (ulong2INTEGER v) = v := by
   unfold ulong2INTEGER
-  have : toSigned64 v = v := by unfold toSigned64; split <;> omega
-  rw [this]
-  exact imax2INTEGER_spec v (by unfold fitsS64; omega)
+  exact umax2INTEGER_spec v h
 
-/-- F2: 2^63 passed through `intmax_t` is stored as a negative INTEGER. -/
-theorem ulong2INTEGER_cex : twosVal (ulong2INTEGER (2 ^ 63)) = -(2 ^ 63) := by decide
+/-- the former F2 witness: 2^63 is stored as the positive INTEGER 00 80 00 00 00 00 00 00 00 -/
+example : ulong2INTEGER (2 ^ 63) = [0, 128, 0, 0, 0, 0, 0, 0, 0] := by decide
 
 open Asn1c.Proofs.Strtox
 
